@@ -100,3 +100,44 @@ class LookupClf(BaseEstimator, ClassifierMixin):
 
     def score(self, X, y, sample_weight=None):
         return 0.0
+
+
+class RecClf2(BaseEstimator, ClassifierMixin):
+    """Classifier for partition/dispatch checks: records the rows it was trained on; for a probe row it answers the class
+    of index (sum of training row ids + probe id) mod n_classes, with a one-hot probability row over classes_."""
+
+    def __init__(self, slow=False):
+        self.slow = slow
+
+    def fit(self, X, y, sample_weight=None):
+        rows = ids(X)
+        ys = [int(round(float(v))) for v in numpy.asarray(y).ravel()]
+        ws = [] if sample_weight is None else [int(round(float(v))) for v in numpy.asarray(sample_weight).ravel()]
+        LOG.append(("fit", dict(rows=rows, ys=ys, ws=ws, obj=id(self))))
+        if self.slow and 1 in rows and len(rows) < 10 ** 6:
+            import time
+            time.sleep(0.03)
+        self.classes_ = numpy.array(sorted(set(ys)))
+        self.rows_ = rows
+        self.sumid_ = sum(rows)
+        return self
+
+    def _idx(self, X):
+        return [(self.sumid_ + r) % len(self.classes_) for r in ids(X)]
+
+    def predict(self, X):
+        return numpy.array([self.classes_[k] for k in self._idx(X)])
+
+    def predict_proba(self, X):
+        out = numpy.zeros((numpy.asarray(X).shape[0], len(self.classes_)))
+        for q, k in enumerate(self._idx(X)):
+            out[q, k] = 1.0
+        return out
+
+
+class SlowRecReg(RecReg):
+    def fit(self, X, y, sample_weight=None):
+        if 1 in ids(X) and numpy.asarray(X).shape[0] < 10 ** 6:
+            import time
+            time.sleep(0.03)
+        return RecReg.fit(self, X, y, sample_weight)
